@@ -168,6 +168,10 @@ def extract_reuse_info(text: str) -> ReuseInfo:
             )
             raise ExpressionError(str(error)) from error
     for line in text.splitlines():
+        # A contributor is not a copyright holder, even if their name holds
+        # the word 'Copyright'.
+        if _CONTRIBUTOR_PATTERN.search(line):
+            continue
         for pattern in _COPYRIGHT_PATTERNS:
             match = pattern.search(line)
             if match is not None:
